@@ -743,13 +743,13 @@ fn gen_presented(rng: &mut Rng, c: &Ctl, calls: &[Call]) -> (BTreeSet<usize>, &'
             "natural"
         }
         15..=24 => {
-            hold(rng, &mut set, rng.usize_below(3));
+            { let r0 = rng.usize_below(3); hold(rng, &mut set, r0); }
             "one-role"
         }
         25..=28 => {
             let a = rng.usize_below(3);
             hold(rng, &mut set, a);
-            hold(rng, &mut set, (a + 1 + rng.usize_below(2)) % 3);
+            { let r1 = (a + 1 + rng.usize_below(2)) % 3; hold(rng, &mut set, r1); }
             "two-roles"
         }
         29 => {
@@ -764,7 +764,7 @@ fn gen_presented(rng: &mut Rng, c: &Ctl, calls: &[Call]) -> (BTreeSet<usize>, &'
             "foreign-badge"
         }
         35 => {
-            hold(rng, &mut set, rng.usize_below(3));
+            { let r0 = rng.usize_below(3); hold(rng, &mut set, r0); }
             set.insert(FOREIGN);
             "one-role+foreign"
         }
@@ -776,7 +776,7 @@ fn gen_presented(rng: &mut Rng, c: &Ctl, calls: &[Call]) -> (BTreeSet<usize>, &'
                 }
             }
             if set.is_empty() {
-                hold(rng, &mut set, rng.usize_below(3));
+                { let r0 = rng.usize_below(3); hold(rng, &mut set, r0); }
             }
             "proposer-role"
         }
